@@ -58,6 +58,15 @@ CHECKS = {
  "C19": ("initialization-state monitor (model set of registered/done initializers over committed transactions) + commit-phase monitor of the Initialized() channel at the hook points inside Commit + concurrent waiters under the race detector",
          "Fault enumeration at the commit hook points (channel open up to and including commit.rootLocked, closed only by the completing commit, closed implies a fresh snapshot says initialized) on every commit of seeded random histories of registrations and marks across committed and aborted transactions; plus waiter goroutines under -race with delay injection.",
          "Initializer names are unique per registration; done functions from registrations in aborted transactions are not called.", "5/C19"),
+ "C14": ("virtual-time (testing/synctest) monitor of the real reconciler (hive job group) against a simulated target: bounded-convergence check after failures and changes stop",
+         "Exploration: seeded random runs over configurations (single/batch, round size 1/2/3/1000, limiter none/10 ms, four backoff settings, refresh and pruning on/off) with per-call failures, writes injected inside operations and between the operation and the status commit, status-only writes by a second reconciler; liveness is restated as bounded progress in virtual time.",
+         "Bound: 2 x RetryBackoffMax + (objects+5) x (limiter interval + 35 ms) + 1 s of virtual time; with refreshing enabled a Refreshing status at the final instant is accepted.", "5/C14"),
+ "C15": ("virtual-time monitor over the attempt log and user-write log of the real reconciler: table == latest user writes, statuses backed by attempts, foreign statuses preserved, Update/Prune call preconditions",
+         "Exploration: the C14 runs with every placement of user writes {between rounds, inside Update/Delete/UpdateBatch, between the operation and the status commit} x {update, delete, delete+re-insert, status-only by a second reconciler} x {success, failure}; invariants evaluated at every quiescent point.",
+         "The model of user writes is updated under the table lock; quiescent points are synctest.Wait() after sleeping.", "5/C15"),
+ "C16": ("virtual-time monitor over the timestamps of operation attempts and the values returned by WaitUntilReconciled, exact in pacing runs",
+         "Exploration: general runs check the lower bound (no retry sooner than RetryBackoffMin) and that WaitUntilReconciled(rev) never returns nil before every still-current change <= rev was attempted; pacing runs (instantaneous operations, unlimited limiter) check non-shrinking waits, the cap, the fresh first wait after change/success and the exact low-watermark at quiescent points.",
+         "A status-only write by another reconciler between a failure and the next attempt makes that pair unjudged (both immediate reprocessing and paced retry are legitimate); watermark model = revision argument of the oldest pending failed attempt.", "5/C16"),
 }
 
 NOT_YET = "check not built yet in this session (planned: see DESIGN.md section 5)"
